@@ -17,6 +17,13 @@ Placement grid (VM engines nano_virt --run, nano_vm, the stand-alone executable 
    evaluator where the program shape is supported): the access sits in main's callee (main grid), in a nested call
    chain, a loop body, a match arm, a call argument, a cond branch, in a function called from a top-level `let`
    initialiser, or is the initialiser itself - a trap while the initialisers run must also keep main from running.
+Element kinds: int, string, bool, struct, float, u8 (byte buffers), nested arrays, enum constants (held in array<int>).
+Value-less placements (r2): statement position with the value discarded, argument of a discarded call, inside a void
+   helper, inside a helper whose result the caller drops - for at / array_get / array_pop (+ set / remove in the void
+   helper); their controls are doubled by a value-checked control in the main placement.  enum_index: the index is an
+   enum-typed value (ordinal >= length).
+Capacity band: lengths 0,1,5,7,8,9,15,16,17 x EVERY index from the length to one past the next capacity of the store
+   (8/16/32 slots), one compiled program per family, the index arrives through the environment (C08_IDX).
 Assembler level: TUPLE_GET / STRUCT_GET / STRUCT_SET / UNION_FIELD k with k >= count through probes/c08_asm_probe.c
    (repo's asm_assemble) into the real nano_vm (verifier on) and in-process with the verifier skipped.
 """
@@ -1325,6 +1332,12 @@ def run(ctx):
                             ("sampled per (placement, op, kind) with rotating construction / index class" if ctx.quick()
                              else "complete on vm, nano_vm, native, evaluator (no global placements: shadow tests do not run initialisers); "
                                   "the wrapper executable (one C link per cell) is sampled, 4 cells per (placement, op, kind)") +
+                            ".  r2 additions: element kinds float, u8, nested array, enum constant in the main grid (" +
+                            ("lengths 0,1,5,8 in this tier" if ctx.quick() else "all lengths; natively 0,1,2,5,8") +
+                            "); placements discard / discard_arg / helper_void / helper_discard (+ op array_get) and enum-typed "
+                            "index; capacity band = lengths 0,1,5,7,8,9,15,16,17 x every index in [length, next capacity + 1] "
+                            "(full stores: up to twice the capacity + 1) x {at, array_get, array_set, array_remove_at} x 8 kinds x "
+                            "{literal, pushed}, " + ("two whole families per (op, kind) and engine" if ctx.quick() else "complete on all four engines") +
                             ".  assembler level = {TUPLE_GET, STRUCT_GET, STRUCT_SET, UNION_FIELD} x field counts 0..4 x k in {count, count+1, 255, 256, 65535}"),
             "grid_fault_cells": grid_sizes,
             "fault_cells_executed": executed,
@@ -1352,5 +1365,9 @@ def run(ctx):
             "(its generated main() must see the flavor's VmState layout)",
             "global placements: a fault while the global initialisers run must also keep main from running (a C08:MAIN line counts like "
             "C08:AFTER); natively a global initialiser that calls a function may not compile (census global_fn_init): skipped and counted",
+            "capacity-band cells take the index from the environment (getenv + string_to_int) so that one compiled program serves a "
+            "family; each index still runs in its own process",
+            "array<Enum> cannot be read back (the type checker treats its elements as structs), so the enum element kind stores enum "
+            "constants in array<int>; arrays of enum-typed indices are covered by the enum_index placement",
             "char_at is outside the statement of C08 (strings) and docs/STDLIB.md contradicts itself; it is recorded, not judged",
         ])
